@@ -8,6 +8,7 @@ import (
 	"os/exec"
 	"path/filepath"
 	"strings"
+	"time"
 
 	"verifharness/vh"
 )
@@ -132,7 +133,16 @@ func runOneCase(path string) {
 	b, _ := os.ReadFile(path)
 	var c Case
 	_ = json.Unmarshal(b, &c)
-	o := Exec(c, nil, watchdog)
+	// a process of its own for one (known bad) case: a low memory cap and no grace period
+	memLimit = uint64(1) << 30
+	grace = 0
+	onBlowup = func(c Case, heap uint64) {
+		ob, _ := json.Marshal(&Outcome{Stage: "Read", SchemaAccepted: true, Fail: "memory",
+			Panic: fmt.Sprintf("heap grew past %d MB during one call", memLimit>>20)})
+		fmt.Println(string(ob))
+	}
+	startMemWatch()
+	o := Exec(c, nil, 3*time.Second)
 	ob, _ := json.Marshal(o)
 	fmt.Println(string(ob))
 	os.Exit(0)
